@@ -17,6 +17,7 @@ BIN = {
 }
 BIN_OPS = list(BIN)
 P_COND, P_ASSIGN, P_UNARY, P_POSTFIX, P_ATOM = 2, 1, 14, 15, 16
+P_COMMA = 0
 ASSIGN_OPS = ["=", "+=", "-=", "*=", "/=", "%=", "&=", "|=", "^=", "<<=", ">>="]
 UN_OPS = ["-", "~", "!", "+"]
 TYPES = ["int32_t", "uint8_t", "int64_t", "uint16_t", "size4u_t", "size8s_t", "size1s_t", "int", "unsigned"]
@@ -39,7 +40,9 @@ IDENTS = ["tmp", "EA", "i", "j", "foo1", "a", "b", "x1", "RsVx", "Rs", "siVx", "
           "width", "_t", "N", "sV", "iV", "Rdd", "V", "RsN_", "uiv",
           # identifiers that merely start (or end) like a keyword or a built-in terminal
           "done", "format", "iface", "breakpoint", "elsewhere", "ifx", "fort", "int_x", "returned", "doit", "switcher",
-          "whileloop", "casex", "gotox", "sizeofx", "unsignedx", "voidp", "autoinc", "JUMPx", "mem_load", "NOPx", "constx", "forif"]
+          "whileloop", "casex", "gotox", "sizeofx", "unsignedx", "voidp", "autoinc", "JUMPx", "mem_load", "NOPx", "constx", "forif",
+          # one letter away from an immediate / register spelling
+          "MiV", "NiV", "xiV", "TiV", "aiV", "RsX", "RaV", "PfV", "XsV", "RsVV", "riv", "SIV"]
 NUMS = [("0", None), ("1", None), ("7", "U"), ("0x1f", None), ("0x10", "ULL"), ("3", "LL"), ("9", "u"), ("0xffffffff", "U"),
         ("12", "ull"), ("0xAB", None), ("100", "ll"), ("0x0", None)]
 
@@ -107,7 +110,14 @@ class CGen:
         if d <= 0 or ch.chance(1, 5, "leaf"):
             return self.atom()
         k = ch.weighted([("bin", 12), ("un", 3), ("cast", 2), ("cond", 2), ("post", 1), ("call", 1), ("macro", 1), ("load", 1),
-                         ("stmtexpr", 1)], "ek")
+                         ("stmtexpr", 1), ("sizeoft", 1), ("comma", 1)], "ek")
+        if k == "sizeoft":
+            return ("sizeoft", ch.choice(TYPES, "sty"))
+        if k == "comma":
+            e = ("comma", self.expr(d - 1), self.expr(d - 1))
+            if ch.chance(1, 2, "comma3"):
+                e = ("comma", e, self.expr(d - 1))
+            return e
         if k == "bin":
             return ("bin", ch.choice(BIN_OPS, "bop"), self.expr(d - 1), self.expr(d - 1))
         if k == "un":
@@ -143,6 +153,8 @@ class CGen:
         if k == "assign":
             return ("expr", self.assignment(d))
         if k == "decl":
+            if ch.chance(1, 8, "declp"):
+                return ("declp", ch.choice(["int32_t", "uint8_t", "size4u_t"], "dty"), ch.choice(["p", "q", "v1"], "dn"))
             return ("decl", ch.choice(["int32_t", "uint64_t", "int8_t", "size4u_t", "int"], "dty"),
                     ch.choice(["v1", "v2", "lx", "tmp2"], "dn"), self.expr(d) if ch.chance(3, 4, "dinit") else None)
         return ("expr", ("post", ch.choice(["++", "--"], "pop"), ("atom", ("id", ch.choice(["tmp", "a", "i"], "pid")))))
@@ -164,7 +176,9 @@ class CGen:
         if k == "for":
             it = ch.choice(["i", "j", "k"], "it")
             init = ("expr", ("assign", "=", ("atom", ("id", it)), ("atom", ("num", "0", None))))
-            step = ch.choice([("post", "++", ("atom", ("id", it))), ("assign", "+=", ("atom", ("id", it)), ("atom", ("num", "1", None)))], "step")
+            step = ch.choice([("post", "++", ("atom", ("id", it))), ("assign", "+=", ("atom", ("id", it)), ("atom", ("num", "1", None))),
+                              ("comma", ("comma", ("post", "++", ("atom", ("id", it))), ("post", "++", ("atom", ("id", "tmp")))),
+                               ("post", "--", ("atom", ("id", "a"))))], "step")
             return ("for", init, self.expr(1), step, self.stmt(d - 1))
         if k == "store":
             return ("store", ch.choice("su", "ss"), ch.choice(["8", "16", "32", "64"], "sw"), self.expr(1), self.expr(1))
@@ -188,6 +202,10 @@ class CGen:
             return P_COND
         if k == "assign":
             return P_ASSIGN
+        if k == "sizeoft":
+            return P_UNARY
+        if k == "comma":
+            return P_COMMA
         raise ValueError(n)
 
     def show(self, n):
@@ -247,7 +265,11 @@ class CGen:
         if k in ("call", "macro"):
             return n[1] + self.sp() + "(" + (", ".join(par(a, self.prec(a) < P_ASSIGN) for a in n[2])) + ")"
         if k == "load":
-            return f"mem_load_{n[1]}{n[2]}(" + self.show(n[3]) + ")"
+            return f"mem_load_{n[1]}{n[2]}(" + par(n[3], self.prec(n[3]) < P_ASSIGN) + ")"
+        if k == "sizeoft":
+            return "sizeof" + self.sp() + "(" + self.sp() + n[1] + self.sp() + ")"
+        if k == "comma":
+            return par(n[1], False) + self.sp() + "," + self.sp() + par(n[2], self.prec(n[2]) < P_ASSIGN)
         if k == "stmtexpr":
             return "({ " + " ".join(self.show_stmt(s) for s in n[1]) + " " + self.show(n[2]) + "; })"
         raise ValueError(n)
@@ -267,8 +289,12 @@ class CGen:
             if self.ch.draw(4, "stmt-parens") == 0:
                 body = "(" + self.sp() + body + self.sp() + ")"        # a parenthesised expression statement is the same statement
             return body + self.sp() + ";"
+        if k == "declp":
+            return f"{s[1]}{self.sp()}*{self.sp()}{s[2]}{self.sp()};"
         if k == "decl":
             if s[3] is None:
+                if self.ch.draw(4, "decl-parens") == 0:
+                    return f"{s[1]} ({self.sp()}{s[2]}{self.sp()});"
                 return f"{s[1]} {s[2]};"
             init = self.show(s[3])
             if self.prec(s[3]) < P_ASSIGN:
@@ -291,7 +317,10 @@ class CGen:
             return (f"for{self.sp()}({self.show_stmt(s[1])} {self.show(s[2])}; {step}) "
                     + self.show_stmt(s[4], brace_all_ifs))
         if k == "store":
-            return f"mem_store_{s[1]}{s[2]}({self.show(s[3])}, {self.show(s[4])});"
+            def arg(e):
+                t = self.show(e)
+                return "(" + t + ")" if self.prec(e) < P_ASSIGN else t
+            return f"mem_store_{s[1]}{s[2]}({arg(s[3])}, {arg(s[4])});"
         if k == "jump":
             return "JUMP(" + self.show(s[1]) + ");"
         if k == "return":
@@ -337,7 +366,7 @@ def norm_expr(e):
                  else ([norm_expr(y) for y in x] if isinstance(x, list) else x) for x in e)
 
 
-_KINDS = {"atom", "bin", "un", "cast", "cond", "assign", "post", "call", "macro", "load", "stmtexpr"}
+_KINDS = {"atom", "bin", "un", "cast", "cond", "assign", "post", "call", "macro", "load", "stmtexpr", "sizeoft", "comma"}
 
 
 # ---------------------------------------------------------------------- lark tree (canonical JSON form) -> AST
@@ -394,7 +423,11 @@ def conv_expr(c):
             raise ConvError(f"operator {op} under rule {d}")
         return ("bin", op, conv_expr(ch[0]), conv_expr(ch[2]))
     if d == "unary_expr":
+        if isinstance(ch[0], list) and ch[0][0] == "t" and ch[0][1] == "SIZEOF" and _is_tree(ch[1], "type_specifier"):
+            return ("sizeoft", conv_type(ch[1]))
         return ("un", _tok(ch[0]), conv_expr(ch[1]))       # the token value is compared verbatim
+    if d == "expr" and len(ch) == 2:
+        return ("comma", conv_expr(ch[0]), conv_expr(ch[1]))
     if d == "cast_expr":
         return ("cast", conv_type(ch[0]), conv_expr(ch[1]))
     if d == "conditional_expr":
@@ -447,6 +480,8 @@ def conv_stmt(c):
     if d == "declaration":
         ty = conv_type(ch[0])
         dd = ch[1]
+        if _is_tree(dd, "declarator") and len(dd[2]) == 2 and _is_tree(dd[2][0], "pointer") and not dd[2][0][2]:
+            return ("declp", ty, _tok(dd[2][1]))
         if _is_tree(dd, "init_declarator"):
             return ("decl", ty, _tok(dd[2][0]), conv_expr(dd[2][1]))
         return ("decl", ty, _tok(dd), None)
